@@ -35,6 +35,7 @@ RULE += (
          'Tainted and plain threads; expression-typed raise failing in '
          'some threads. ')
 RULE += ('Round 8: repeated structured-text format; nameless mutable expression values changed by the template. ')
+RULE += ('Round 9: statistics asked twice; a second thread compiles while the first renders (two preemptions over the whole package). ')
 ASSUMPTIONS = [
     'preemption happens at Python line granularity inside the package; '
     'races inside one line or inside C code of dependencies are not explored',
